@@ -163,16 +163,17 @@ def queries(ctx):
                 ctx.fail("c09:rescoring-keys", f"round {r}: {sorted(rec)} vs {sorted(sc)}")
             else:
                 ctx.require(AND(*[eq(rec[c], sc[c]) for c in sc]) if sc else True, "c09:rescoring", f"round {r}: re-scoring the returned profile does not reproduce the recorded tallies")
-        try:
-            st = e.get_step(r)
-            pr2 = e.get_profile(r - n)
-        except Exception as exc:
-            ctx.fail(f"c09:get_step-raises:{type(exc).__name__}", f"round {r}")
-            return out
-        if canon(st[0]) != canon(pr) or st[1] is not states[r] or canon(pr2) != canon(pr):
-            ctx.fail("c09:get_step", f"round {r}")
-        if not pure(f"get_step({r})"):
-            return out
+        if r in (n - 1, 1):  # get_step / negative index are thin wrappers over the same replay: two rounds suffice
+            try:
+                st = e.get_step(r)
+                pr2 = e.get_profile(r - n) if r == n - 1 else pr
+            except Exception as exc:
+                ctx.fail(f"c09:get_step-raises:{type(exc).__name__}", f"round {r}")
+                return out
+            if canon(st[0]) != canon(pr) or st[1] is not states[r] or canon(pr2) != canon(pr):
+                ctx.fail("c09:get_step", f"round {r}")
+            if not pure(f"get_step({r})"):
+                return out
     for q in QUERIES:
         for bad in (n, -n - 1):
             try:
@@ -237,11 +238,11 @@ def tasks(tier, seed):
         fams = [fams3[i % len(fams3)]] if q else fams3
         for sup in supports_of(fams, sizes=(2, 3) if q else None):
             for m in (ms[-1:] if q and len(sup) == 3 else ms):
-                out.append(t(rule, m, opts, sup, weight=2 * len(sup)))
+                out.append(t(rule, m, opts, sup, weight=2 * len(sup), split=3 if (rule == "Alaska" and len(sup) >= 3) else 0))
     # the default-election corner needs four candidates (two elected by default in the last round)
     f4 = F.fam("A", "B", "C", "D", "A>B")
     for sup in supports_of([f4], sizes=(4, 5) if q else None):
-        out.append(t("STV", 3, o("droop", True), sup, cands=C.K4, nmax=8, weight=3 * len(sup)))
+        out.append(t("STV", 3, o("droop", True), sup, cands=C.K4, nmax=8, weight=3 * len(sup), split=4))
     for fam in F.tied3(q):
         for sup in supports_of([fam], sizes=(len(fam), 1) if q else None):
             for m in (1, 2):
